@@ -168,6 +168,8 @@ class CVRPTWEnv(CVRPEnv):
     @staticmethod
     def check_solution_validity(td: TensorDict, actions: torch.Tensor) -> None:
         CVRPEnv.check_solution_validity(td, actions)
+        # the last route returns to the depot even if the action sequence does not say so explicitly
+        actions = torch.cat((actions, torch.zeros_like(actions[:, :1])), dim=1)
         batch_size = td["locs"].shape[0]
         # distances to depot
         distances = get_distance(
